@@ -389,6 +389,10 @@ func (e *kvElection) becomeLeader(token string, rev uint64) {
 		return
 	}
 
+	// Health failures are counted per term: what a previous term left behind
+	// must not bring the demotion threshold closer for this one.
+	e.healthFailureCount.Store(0)
+
 	e.isLeader.Store(true)
 	e.leaderID.Store(e.cfg.InstanceID)
 	e.token.Store(token)
